@@ -29,6 +29,8 @@ def run(check: Check, repo: Repo, tier: str) -> None:
     D.print_order(check, repo)
     D.block_guard(check, repo)
     D.description_verbatim(check, repo)
+    from rules import schema_rules as S17
+    S17.referenced_complete(check, repo)
     lt_agree.check_lt_agree(check, repo, scope=["utilities.print_schema", "language.block_string", "language.printer"])
     L.ws_agree(check, repo, ["utilities.print_schema", "language.block_string", "language.printer"])
     K.regex_fullmatch(check, repo, ["type.scalars", "utilities.value_to_literal", "utilities.ast_from_value"])
